@@ -55,6 +55,7 @@ CHECKS = {
 ALSO = {
  "C02": "also engine E2 (clause C02.value-through-indexing: generated programs that use results and parameters through index paths, also across nested DAG calls)",
  "C03": "also engines E4 (entry counters over operation histories) and E3 (exactly the selection is entered; runnable debug nodes are taken along)",
+ "C04": "also engine E2 (clause C04.thread: thread identity of every entered node of generated programs, nested DAGs included, against the resource the harness asked for)",
  "C06": "also engine E3 (clause C06.order: mc=1 execution orders of described, reloaded and composed DAGs against the documented compound priority)",
  "C09": "also engine E4 (every operation of every history returns or raises; concurrent and failing setup())",
  "C11": "also engine E3 (setup(...) with selections; build-time refusals)",
